@@ -30,6 +30,9 @@ def _mk_engine(repo, contracts, field_types, mods, mode, unroll):
     from .engine import Engine
 
     eng = Engine(repo, contracts, mode=mode, unroll=unroll)
+    from . import loops as _loops
+
+    _loops.ENGINE_REF[0] = eng
     eng.field_types.update(field_types)
     for m in mods:
         if hasattr(m, "install"):
